@@ -65,3 +65,36 @@ func (*ZWrap1) C() {}
 func (*ZWrap2) A() {}
 func (*ZWrap2) B() {}
 func (*ZWrap2) C() {}
+
+// Providers that are not pointers to structs: legal components all the same (they have no fields to tag,
+// they only provide).
+type IntProv int
+type MapProv map[string]string
+type SigProv chan struct{}
+
+func (*IntProv) A()             {}
+func (*IntProv) Naming() string { return "int-prov" }
+func (*MapProv) A()             {}
+func (*MapProv) B()             {}
+func (SigProv) B()              {}
+func (SigProv) Naming() string  { return "sig-prov" }
+
+// NonStructProviders returns a seeded subset (possibly empty) of them; fresh values per call.
+func NonStructProviders(pick func(n int) int) []any {
+	if pick(3) != 0 {
+		return nil
+	}
+	var out []any
+	if pick(2) == 0 {
+		v := IntProv(7)
+		out = append(out, &v)
+	}
+	if pick(2) == 0 {
+		m := MapProv{"k": "v"}
+		out = append(out, &m)
+	}
+	if pick(2) == 0 {
+		out = append(out, SigProv(make(chan struct{})))
+	}
+	return out
+}
